@@ -247,6 +247,9 @@ def run(ctx, model):
         ok = fn.cls is P and fn.node.name in allowed and isinstance(node, ast.Attribute)
         if ok:
             val = st.value if isinstance(st, (ast.Assign, ast.AnnAssign)) else None
+            if isinstance(st, ast.Assign) and len(st.targets) == 1 and isinstance(st.targets[0], ast.Tuple) and isinstance(val, ast.Tuple) \
+                    and len(val.elts) == len(st.targets[0].elts) and node in st.targets[0].elts:
+                val = val.elts[st.targets[0].elts.index(node)]       # `old, self.cache = self.cache, None`
             if allowed[fn.node.name] == "none":
                 ok = isinstance(val, ast.Constant) and val.value is None
             else:
